@@ -144,9 +144,10 @@ def cas_check(i, trace, fails, http=False):
     j = i + 1
     while j < len(trace) and trace[j][0].startswith("dump "):
         after[Op(trace[j][0]).c] = Dump(trace[j][1]); j += 1
-    if op.c not in before or op.c not in after:
+    if op.c not in after or (op.c not in before and not (http and before)):
         return False
-    b, a = before[op.c], after[op.c]
+    # a client id first seen in this very request is not in the dumps before it: it was absent
+    b, a = before.get(op.c, Dump("dump absent data=na probes=")), after[op.c]
     if not (b.ok and a.ok):
         fails.append(f"op {i}: dump failed around add_version"); return True
     kind = resp_kind(ri)
@@ -267,6 +268,11 @@ class C02(L1Prop):
             for ci, cls in enumerate(classes):
                 ops = pre + ["dumpall", f"http POST av hyph={cls} hyph={c} history b:77,{ci}", "dumpall"]
                 out.append(Case(f"c02-h{k}-{ci}", ops, {"http": True}, mode="http"))
+            # the very first request for a client the server has never seen (the handler's
+            # create-and-retry path): the stored record must still be exactly what was submitted
+            for ci, par in enumerate(("nil", "fresh", "ver:1:0", "latest:2")):
+                ops = pre + ["dumpall", f"http POST av hyph={par} hyph=3 history b:55,{ci},{k % 250}", "dumpall"]
+                out.append(Case(f"c02-h{k}-new{ci}", ops, {"http": True}, mode="http"))
             # retransmissions of the i-th accepted request of client 1
             for i in range(n):
                 par = f"ver:1:{i - 1}" if i > 0 else None
@@ -536,12 +542,20 @@ def foreign_chain_cases(prefix, rng, n, tail):
         la = rng.randint(3, 7)
         ops = ["ensure 1"] + [f"av 1 {'nil' if i == 0 else 'latest:1'} b:1,{i}" for i in range(la)]
         j = rng.randint(1, la - 1)
+        both_snap = k % 2 == 1
+        if both_snap:
+            # client 1 itself holds a snapshot at the very version client 2 will start from and
+            # snapshot: two clients with the SAME snapshot version id, different bytes
+            j = rng.randint(max(1, la - 4), la - 1)
+            ops += [f"as 1 ver:1:{j} b:6,6,{k % 200}", "gs 1"]
         ops += ["ensure 2", f"av 2 ver:1:{j} b:2,0"]
         for _ in range(rng.randint(0, 2)):
             ops.append("av 2 latest:2 b:2,9")
         # older versions of client 1 first (an upload for the base itself is the corner C10 leaves open)
         for i in list(range(j - 1, -1, -1)) + [j]:
             ops += [f"as 2 ver:1:{i} b:7,{i}", "gs 2", f"gcv 2 ver:1:{i}"]
+        if both_snap:
+            ops += ["gs 1", "gs 2"]
         ops += [f"as 1 ver:2:0 b:8", "gs 1", "gcv 1 ver:2:0", "av 1 latest:1 b:1,99", "av 2 latest:2 b:2,99"]
         ops += tail
         out.append(Case(f"{prefix}-foreign-{k}", ops, {"nclients": 2}))
